@@ -87,6 +87,28 @@ AcceptAlias(e) ==
      /\ e.L = <<IF n[1] = 73 THEN 1 ELSE 0, dec(ib) + dec(fb), dec(fb)>>
      /\ e.ibits = dec(ib) /\ e.fbits = dec(fb)                             \* INT_NBITS / FRAC_NBITS constants
 
+\* Sum / Product of the plain types (growth G05) fold with the plain operators + and *, which are constrained (weak
+\* reading of C01 / C02) only while the exact results fit: if every intermediate result of the left fold fits, both the
+\* by-value and the by-reference impl return the exact fold.  The empty product is 1 where 1 is representable.
+FoldExact(op, xs, L) ==                       \* <<every intermediate result fits, exact value>>
+  LET f  == LF(L)
+      xz == [i \in 1..Len(xs) |-> ZJ(xs[i])]
+      step(acc, x) == IF ~acc[1] THEN acc
+                      ELSE LET r == IF op = "sum" THEN ZAdd(acc[2], x) ELSE ZFloorShr(ZMul(acc[2], x), f)
+                           IN <<Fits(r, L), r>>
+  IN IF op = "sum" THEN FoldLeft(step, <<TRUE, Z0>>, xz)
+     ELSE IF xz = <<>> THEN <<Fits(ZPow2(f), L), ZPow2(f)>>
+     ELSE FoldLeft(step, <<TRUE, xz[1]>>, Tail(xz))
+AcceptFold(e) ==
+  LET r == FoldExact(e.op, e.xs, e.L) IN
+  r[1] => ValIs(e.o[1], r[2]) /\ ValIs(e.o[2], r[2])
+\* predicates and constants of the plain types (growth G05)
+AcceptPred(e) ==
+  LET a == ZJ(e.a)  sg == ZSign(a) IN
+  /\ (IF LS(e.L) THEN e.o[1] = <<0, B01(sg < 0)>> /\ e.o[2] = <<0, B01(sg > 0)>> ELSE Absent(e.o[1]) /\ Absent(e.o[2]))
+  /\ ValIs(e.o[3], MinV(e.L)) /\ ValIs(e.o[4], MaxV(e.L)) /\ ValIs(e.o[5], Z0)
+  /\ \A i \in 6..9 : ValIs(e.o[i], a)               \* from_bits(to_bits), from_xx_bytes(to_xx_bytes)
+
 (* ------------------------------ C05 ------------------------------------ *)
 AcceptF2X(e) ==
   LET fl == FDec(ZJ(e.fb), e.ft)  L == e.B
@@ -200,6 +222,8 @@ Accept(e, P) ==
     [] e.k = "impl"  -> AcceptImpl(e)
     [] e.k = "static" -> AcceptStatic(e)
     [] e.k = "alias" -> AcceptAlias(e)
+    [] e.k = "fold"  -> AcceptFold(e)
+    [] e.k = "pred"  -> AcceptPred(e)
     [] e.k = "f2x"   -> AcceptF2X(e)
     [] e.k = "x2f"   -> AcceptX2F(e)
     [] e.k = "codec" -> AcceptCodec(e)
